@@ -24,7 +24,6 @@ def eraseP (L : Lexer) : Lexer := { L with panicked := none }
 @[simp] theorem eraseP_cp (L : Lexer) : (eraseP L).cp = L.cp := rfl
 @[simp] theorem eraseP_nesting (L : Lexer) : (eraseP L).nesting = L.nesting := rfl
 @[simp] theorem eraseP_pendingR (L : Lexer) : (eraseP L).pendingR = L.pendingR := rfl
-@[simp] theorem eraseP_lastState (L : Lexer) : (eraseP L).lastState = L.lastState := rfl
 @[simp] theorem eraseP_mark (L : Lexer) : (eraseP L).mark = L.mark := rfl
 @[simp] theorem eraseP_lit (L : Lexer) : (eraseP L).lit = L.lit := rfl
 @[simp] theorem eraseP_payReg (L : Lexer) : (eraseP L).payReg = L.payReg := rfl
@@ -188,11 +187,6 @@ theorem step_profile (hf : c1.macroSep = c2.macroSep) (o : Op) :
       unfold eraseP at h2 ⊢
       simp only [Lexer.mk.injEq] at h2 ⊢
       simp [h2]
-  case loopCheck =>
-    simp only [step, eraseP_lastState, eraseP_cur, eraseP_modesR]
-    by_cases hc : (L.lastState == (L.cur.remBytes, L.modesR)) = true
-    · simp only [hc, if_true]; first | exact ⟨rfl, rfl⟩ | exact ⟨trivial, rfl⟩
-    · simp only [hc]; first | exact ⟨rfl, rfl⟩ | exact ⟨trivial, rfl⟩
   case emitEofAtCursor =>
     simp only [step]
     refine ⟨by first | rfl | trivial, ?_⟩
